@@ -812,6 +812,59 @@ def h_nh6(ctx, tier, famname):
     return run_one(ctx, neg, facts, fam, d, 'defaults', [(nlri, req, nh, ip)], NextHop.from_packet(nh))
 
 
+def h_rib_grouped(ctx, tier, famname, alen):
+    """Through the Adj-RIB-Out, as the reactor sends: two routes with the same attributes are given before one flush
+    (add_to_rib twice), OutgoingRIB.updates(grouped=True) groups them as it sees fit, every UpdateCollection it yields
+    is encoded for the session.  Whatever the grouping, each destination is announced once, with ITS next hop (the two
+    next hops are symbolic: equal or different is the solver's choice)."""
+    from exabgp.rib.outgoing import OutgoingRIB
+    fam = FAMILIES[famname]
+    d = decider(ctx)
+    kind = ctx.pick('kind', ['ibgp', 'ebgp'])
+    extnh = alen == 16 and fam['alen'] == 4
+    neg, facts = mk_session(fam, kind, True, False, extnh, False)
+    if not session_sane(ctx, neg, facts, fam):
+        return 'session'
+    n1, r1 = mk_nlri(ctx, fam, 'quick', False, tag='.a')
+    n2, r2 = mk_nlri(ctx, fam, 'quick', False, tag='.b', nlabels=(1,))
+    differ = s_not(same_destination(ctx, r1['mask'], r1['prefix'], r1['size'], r1['pid'], r2['mask'], r2['prefix'], r2['size'], r2['pid']))
+    ctx.assume(differ, 'rib-grouped/*: the two NLRIs are different destinations')
+    nh1, ip1 = mk_nexthop(ctx, alen, '.a')
+    nh2, ip2 = mk_nexthop(ctx, alen, '.b')
+    if bool(sx_eq(nh1, nh2)):
+        ctx.cover('same-next-hop')
+    else:
+        ctx.cover('different-next-hops')
+    items = [(n1, r1, nh1, ip1), (n2, r2, nh2, ip2)]
+    rib = OutgoingRIB(True, {(AFI(fam['afi']), SAFI(fam['safi']))})
+    areq = {}
+    for nlri, _, nh, ip in items:
+        attributes, areq = mk_attributes(ctx, 'defaults', NextHop.from_packet(nh))
+        rib.add_to_rib(Route(nlri, attributes, nexthop=ip))
+    out = []
+    try:
+        for upd in rib.updates(True):
+            out.extend(upd.messages(neg))
+    except Exception as exc:
+        ctx.check('emits', False, sig='C01:rib-grouped:raised:%s' % exc_name(exc), info={'raised': '%s: %s' % (exc_name(exc), exc)})
+        return ['raised', exc_name(exc)]
+    seen = []
+    for msg in out:
+        body = check_frame(ctx, msg, facts)
+        try:
+            dec = decode(ctx, body, facts, fam, d)
+        except O.Malformed as m:
+            ctx.check('well-formed', False, sig='C01:wire:malformed:%s:%s' % (m.what, m.code), info={'what': m.what, 'code': m.code})
+            return ['malformed', m.what]
+        ctx.check('no-withdraw', not dec['withdraw'], sig='C01:wire:unexpected-withdraw')
+        seen.extend(dec['announce'])
+    ctx.check('announce-count', len(seen) == 2, sig='C01:rib-grouped:nlri-count', info={'wire': len(seen), 'want': 2, 'messages': len(out)})
+    if len(seen) == 2:
+        match_two(ctx, seen, items, fam, facts)
+    ctx.cover('emitted')
+    return ['ok', len(out)]
+
+
 # ----------------------------------------------------------------------------- units
 
 
@@ -855,6 +908,9 @@ def units(tier):
             us.append(U('two/%s/one-hop' % f, lambda ctx, f=f: h_two(ctx, tier, f, False), must_cover=('emitted',), max_seconds=1200, weight=150))
             if f != 'ipv4-unicast':
                 us.append(U('two/%s/two-hops' % f, lambda ctx, f=f: h_two(ctx, tier, f, True), must_cover=('emitted',), max_seconds=1200, weight=150))
+    for f, alen in (('ipv4-unicast', 16), ('ipv4-unicast', 4), ('ipv6-unicast', 16)):
+        us.append(U('rib-grouped/%s/nh%d' % (f, alen), lambda ctx, f=f, n=alen: h_rib_grouped(ctx, tier, f, n),
+                    must_cover=('emitted', 'same-next-hop', 'different-next-hops'), max_seconds=600, weight=80))
     for f in ('ipv4-unicast', 'ipv4-nlri-mpls', 'ipv4-mpls-vpn'):
         us.append(U('nh6/%s' % f, lambda ctx, f=f: h_nh6(ctx, tier, f), must_cover=('rfc8950', 'emitted'), weight=30))
     return us
